@@ -111,6 +111,16 @@ def run(R, tier, rng):
         def vl(blocks=blocks):
             return np.concatenate([VarLenArray(np.array(b, dtype=int)) for b in blocks]).array.tolist()
         add("varlen " + show(blocks), guarded(vl), "varlen", len(blocks) >= 2, f"np.concatenate([VarLenArray(b) for b in {blocks}])", post="single")
+        # the same blocks in dtypes of different widths (values must not be cast to the first block's dtype), and with a block of width 0
+        big = [[[v + 300 for v in r] for r in b] if i % 2 else b for i, b in enumerate(blocks)]
+        dts = ["int8" if i % 2 == 0 else "int64" for i in range(len(big))]
+        def vl2(big=big, dts=dts):
+            return np.concatenate([VarLenArray(np.array(b, dtype=dt)) for b, dt in zip(big, dts)]).array.tolist()
+        add("varlen " + show(big) + " @mixed-dtypes", guarded(vl2), "varlen/mixed-dtypes", len(big) >= 2, f"np.concatenate([VarLenArray(np.array(b, dtype=dt)) for b, dt in zip({big}, {dts})])", post="single")
+        if len(blocks) >= 2:
+            def vl3(blocks=blocks):
+                return np.concatenate([VarLenArray(np.array(b, dtype=int)) for b in blocks] + [VarLenArray(np.zeros((2, 0), dtype=int))]).array.tolist()
+            add("varlen " + show(blocks + [[[], []]]) + " @width0", guarded(vl3), "varlen/width0", True, f"np.concatenate([... {blocks}, VarLenArray(np.zeros((2, 0)))])", post="single")
     out = oracle([c[0].split(" @")[0] for c in cases])
     for (line, impl, kind, nt, py, post), o in zip(cases, out):
         if post == "single":
